@@ -103,7 +103,7 @@ def obligations(tier):
         CH("strict_refuses_injected_custom_content", H4, "flag_iff_strict_refuses", t * 2, mode="E1s", functions=["stix2.base._STIXBase.__init__"],
            bounds="none, each single and each ordered pair of 45 injection sites on 10 base objects, with and without a legal unregistered property-extension next to them"),
         CH("strict_refuses_reserved_member_names", H4, "reserved_names", t, mode="E1s", functions=["stix2.base._STIXBase.__init__", "stix2.properties.EmbeddedObjectProperty.clean"],
-           bounds="members named allow_custom / interoperability / custom_properties at 14 sites, alone or next to a custom property"),
+           bounds="members named allow_custom / interoperability / custom_properties / _valid_refs at 16 sites, alone or next to a custom property"),
         CH("unregistered_extension_entries", H, "ext_entries", t, mode="E1s", functions=["stix2.properties.ExtensionsProperty.clean"], stubs=[MODEL],
            bounds="17 entry values (object with each extension type, not an object, empty, nulls and empty containers at depth 1-3, unknown / non-text / missing extension_type) under an unregistered extension-definition key x 5 host objects x parse / constructor"),
         CH("strict_refuses_custom_hash_names", H4, "prop_hashes", t, mode="E1s", functions=F4[3:], bounds="12 algorithm names, singles and pairs"),
